@@ -1102,6 +1102,7 @@ def gen_deep_schema(draw):
         B.anyattr = (draw(st.sampled_from(AW_CHOICES)), draw(st.sampled_from(pcs)))
     eo = (draw(st.sampled_from(AW_CHOICES)), draw(st.sampled_from(pcs))) if draw(st.integers(0, 2)) == 0 else None
     if eo is not None and aw_union(B.anyattr, eo) is None: eo = ('##other', eo[1])
+    if eo is not None and aw_union(B.anyattr, eo) is None: eo = None       # no union with a single reading: E declares no wildcard of its own
     E.own_anyattr = eo; E.has_own_wild = eo is not None; E.anyattr = aw_union(B.anyattr, eo)
     ro = None
     if B.anyattr is not None and draw(st.booleans()):
